@@ -7,6 +7,8 @@ from harness.core import Case
 from harness import clientlib as cl, respspec
 from harness.callreg import invocations
 
+WIDE = 200000        # thorough tier: histories of the wide correspondence stream (widegen.py), judged by the model and the generic rule
+WIDE_QUICK = 2000
 PROP = 'C02'
 EXHAUSTIVE = False
 RULE = ('every modelled entry point x responses from the reference encoder (0..3 records quick / 0..8 thorough, length prefixes '
